@@ -220,6 +220,15 @@ v("C17", "jittered-value-converted-unbounded", RT, "\tif finalBackoff >= float64
 v("C17", "nan-blind-lower-bound", RT, "\tif !(finalBackoff >= 0) {\n\t\tfinalBackoff = backoff\n\t}\n\tif !(finalBackoff >= 0) {", "\tif finalBackoff < 0 {\n\t\tfinalBackoff = backoff\n\t}\n\tif finalBackoff < 0 {", ["C17-R5"], "a NaN jitter passes the lower bound")
 v("C18", "periodic-check-needs-known-leader", W, "\tif currentLeaderID != newLeaderID {\n\t\tif currentLeaderID != \"\" {", "\tif currentLeaderID != \"\" && currentLeaderID != newLeaderID {\n\t\tif currentLeaderID != \"\" {", ["C18-R5"], "a follower without a known leader never records the one the periodic check reads")
 
+# ---- rules that had no exercising variant
+v("C01", "refresh-ignores-snapshot-claim", HB, "\t\t\tif !stillLeader {\n\t\t\t\treturn\n\t\t\t}\n", "\t\t\t_ = stillLeader\n", ["C01-R3"], "the refresh uses the revision of a snapshot in which the claim was not tested: a deposed leader presents its successor's revision")
+v("C03", "refresh-without-claim-check", HB, "\t\t\tif !stillLeader {\n\t\t\t\treturn\n\t\t\t}\n", "\t\t\t_ = stillLeader\n", ["C03-R3"], "the refresh Update is issued without the claim having been read true in this iteration", also=[("\t\t\tif !e.IsLeader() {\n\t\t\t\treturn\n\t\t\t}\n\n\t\t\tif e.cfg.HealthChecker != nil {", "\t\t\tif e.cfg.HealthChecker != nil {")])
+v("C04", "validation-loop-ignores-negative-verdict", FE, "\t\t\t\te.handleValidationFailure(ctx, ErrTokenInvalid)\n\t\t\t\treturn", "\t\t\t\tcontinue", ["C04-R5"], "the background validation logs a negative verdict and goes on")
+v("C05", "status-token-is-leader-id", KV, "\t\tToken:          token,\n", "\t\tToken:          leaderID + token[:0],\n", ["C05-R4"], "Status().Token does not show the term token")
+v("C15", "heartbeat-retries-permanent-errors", HB, "\t\t\t\tif IsPermanentError(updateErr) {", "\t\t\t\tif updateErr == ErrNotLeader {", ["C15-R4", "C03-R2"], "the heartbeat no longer classifies its error: a revision conflict is retried three times")
+v("C18", "undocumented-state-value", KV, "\te.state.Store(StateCandidate)", "\te.state.Store(\"STARTING\")", ["C18-R4"], "an undocumented state value is stored")
+v("C20", "key-rewritten-in-start", KV, "\te.ctx, e.cancel = context.WithCancel(ctx)\n", "\te.ctx, e.cancel = context.WithCancel(ctx)\n\te.key = e.cfg.Group\n", ["C20-R1", "C20-R2"], "an init-only field that is read without the mutex everywhere gets a writer")
+
 def main():
     only = set(sys.argv[1:])
     work = tempfile.mkdtemp(prefix="mkvariants-")
